@@ -338,6 +338,26 @@ func (rs *s3ClientStorage) ListObjects(ctx context.Context, bucketName storage.B
 	}, nil
 }
 
+// objectVersionListedBefore reports whether a precedes b in a version listing:
+// keys ascending and, within a key, the latest entry first and the remaining
+// ones newest first. Entries modified at the same time fall back to the order
+// of their version ids, with the null version last.
+func objectVersionListedBefore(a storage.ObjectVersion, b storage.ObjectVersion) bool {
+	if a.Key.String() != b.Key.String() {
+		return a.Key.String() < b.Key.String()
+	}
+	if a.IsLatest != b.IsLatest {
+		return a.IsLatest
+	}
+	if !a.LastModified.Equal(b.LastModified) {
+		return a.LastModified.After(b.LastModified)
+	}
+	if (a.VersionID == "null") != (b.VersionID == "null") {
+		return b.VersionID == "null"
+	}
+	return a.VersionID > b.VersionID
+}
+
 func (rs *s3ClientStorage) ListObjectVersions(ctx context.Context, bucketName storage.BucketName, opts storage.ListObjectVersionsOptions) (*storage.ListObjectVersionsResult, error) {
 	ctx, span := rs.tracer.Start(ctx, "S3ClientStorage.ListObjectVersions")
 	defer span.End()
@@ -354,19 +374,34 @@ func (rs *s3ClientStorage) ListObjectVersions(ctx context.Context, bucketName st
 		return nil, translateS3Error(err)
 	}
 
-	versions := []storage.ObjectVersion{}
+	objectVersions := []storage.ObjectVersion{}
 	for _, version := range result.Versions {
 		if version.Key == nil || version.VersionId == nil || version.LastModified == nil {
 			continue
 		}
-		versions = append(versions, storage.ObjectVersion{Key: storage.MustNewObjectKey(*version.Key), VersionID: *version.VersionId, IsDeleteMarker: false, IsLatest: aws.ToBool(version.IsLatest), LastModified: *version.LastModified, Size: aws.ToInt64(version.Size), ETag: version.ETag, StorageClass: storageClassFromAWS(version.StorageClass)})
+		objectVersions = append(objectVersions, storage.ObjectVersion{Key: storage.MustNewObjectKey(*version.Key), VersionID: *version.VersionId, IsDeleteMarker: false, IsLatest: aws.ToBool(version.IsLatest), LastModified: *version.LastModified, Size: aws.ToInt64(version.Size), ETag: version.ETag, StorageClass: storageClassFromAWS(version.StorageClass)})
 	}
+	deleteMarkers := []storage.ObjectVersion{}
 	for _, marker := range result.DeleteMarkers {
 		if marker.Key == nil || marker.VersionId == nil || marker.LastModified == nil {
 			continue
 		}
-		versions = append(versions, storage.ObjectVersion{Key: storage.MustNewObjectKey(*marker.Key), VersionID: *marker.VersionId, IsDeleteMarker: true, IsLatest: aws.ToBool(marker.IsLatest), LastModified: *marker.LastModified})
+		deleteMarkers = append(deleteMarkers, storage.ObjectVersion{Key: storage.MustNewObjectKey(*marker.Key), VersionID: *marker.VersionId, IsDeleteMarker: true, IsLatest: aws.ToBool(marker.IsLatest), LastModified: *marker.LastModified})
 	}
+	// The SDK hands out the versions and the delete markers as two lists, each
+	// in listing order. Merge them back into one listing.
+	versions := make([]storage.ObjectVersion, 0, len(objectVersions)+len(deleteMarkers))
+	for len(objectVersions) > 0 && len(deleteMarkers) > 0 {
+		if objectVersionListedBefore(deleteMarkers[0], objectVersions[0]) {
+			versions = append(versions, deleteMarkers[0])
+			deleteMarkers = deleteMarkers[1:]
+		} else {
+			versions = append(versions, objectVersions[0])
+			objectVersions = objectVersions[1:]
+		}
+	}
+	versions = append(versions, objectVersions...)
+	versions = append(versions, deleteMarkers...)
 
 	commonPrefixes := []string{}
 	for _, commonPrefix := range result.CommonPrefixes {
